@@ -1841,6 +1841,9 @@ class Executor:
             return Tup(a.items + b.items, a.kind)
         if isinstance(a, Tup) and isinstance(b, SeqV) and isinstance(op, ast.Add) and not a.items:
             return b
+        if isinstance(a, Tup) and isinstance(b, SeqV) and isinstance(op, ast.Add) and z3.is_app(b.z) and \
+                b.z.decl().kind() == z3.Z3_OP_SEQ_EMPTY:
+            return a          # tuple + ()
         if isinstance(a, Obj) and '__add__' in a.methods and isinstance(op, ast.Add):
             return a.methods['__add__'](self, a, b)
         if isinstance(b, Obj) and '__radd__' in b.methods and isinstance(op, ast.Add):
@@ -2440,6 +2443,12 @@ def _map(ex, f, seq):
     return Tup([ex.call(f, [i], {}) for i in seq.items], 'list')
 
 
+def _reversed(ex, seq):
+    if not isinstance(seq, Tup):
+        raise Unsupported('reversed(%r)' % (seq,))
+    return Tup(list(reversed(seq.items)), 'list')
+
+
 def _abs(ex, v):
     if isinstance(v, int):
         return abs(v)
@@ -2613,7 +2622,7 @@ def _dict_ctor(ex, d=None, **kw):
 
 BUILTINS = {
     'len': FnV(_len, 'len'), 'min': FnV(_minmax('min'), 'min'), 'max': FnV(_minmax('max'), 'max'),
-    'map': FnV(lambda ex, f, seq: _map(ex, f, seq), 'map'),
+    'map': FnV(lambda ex, f, seq: _map(ex, f, seq), 'map'), 'reversed': FnV(lambda ex, seq: _reversed(ex, seq), 'reversed'),
     'abs': FnV(_abs, 'abs'), 'int': FnV(_int, 'int'), 'float': FnV(_float, 'float'), 'bool': FnV(_bool, 'bool'), 'ord': FnV(_ord, 'ord'),
     'isinstance': FnV(_isinstance, 'isinstance'), 'tuple': FnV(_tuple, 'tuple'), 'list': FnV(_list, 'list'),
     'bytes': FnV(_bytes, 'bytes'), 'hasattr': FnV(_hasattr, 'hasattr'), 'enumerate': FnV(_enumerate, 'enumerate'),
